@@ -312,6 +312,8 @@ def _cpu_hist(body):
     mb = dict(cells)
     cur["m"], cur["default"] = mb, 0
     load(eb, "b")
+    if len(hist) > 3 and hist[3] == "tracer":
+        eb.memory._perf_tracer = CPU._NullTracer()
     rb = run(eb)
     probs = []
     if ra != rb:
